@@ -124,3 +124,24 @@ def prefix_ok(s: str) -> bool:
 
 LETTERS = 'abcdefghijklmnopqrstuvwxyzABCDEFGHIJKLMNOPQRSTUVWXYZ_'
 DIGITS = '0123456789'
+
+
+def decode(code: int, n: int) -> int:
+	"""symbolic op code -> concrete int by explicit comparison (one path per value, no duplicates: measured 1936 paths for 44x44)"""
+	for v in range(n):
+		if code == v:
+			return v
+	raise AssertionError('code out of range')
+
+
+def natively(fn, *args):
+	"""run fn(*args) outside CrossHair's tracer (arguments must already be concrete, e.g. through decode): used for finite case
+	splits where everything after the decode is concrete anyway - the real code then runs at native speed"""
+	try:
+		from crosshair.tracers import NoTracing, is_tracing
+	except ImportError:
+		return fn(*args)
+	if not is_tracing():
+		return fn(*args)
+	with NoTracing():
+		return fn(*args)
